@@ -227,7 +227,7 @@ func (g *Gen) unrelatedTx(s *Scn, from string) {
 // attester-closure (C13): every start state over a universe of attester strings (every non-empty
 // subset, every threshold 1..|set|) x every enable / disable / threshold transaction.
 func genAttesterClosure(g *Gen, n int) {
-	univ := []string{"0x04aa", "0x04bb", "04cc", "0X04DD"}
+	univ := []string{"0x04aa", "0x04bb", "04cc", "0X04DD", "0x04aabb"}
 	if n > 400 {
 		univ = append(univ, "0x04ee")
 	}
